@@ -1,0 +1,141 @@
+//go:build verif
+
+// Contracts for the deductive verifier in /verif (comment-only; compiled only with -tags verif).
+package keeper
+
+//@ family balances key types.KeyBalance value uint64 enc proto
+//@ family supplies key types.KeySupply value uint64 enc proto
+//@ family denoms   key types.KeyDenom value types.Denom
+//@ family mts      key types.KeyMT value types.MT
+//@ family denomSeq key const:nextDenomSequence value uint64
+//@ family mtSeq    key const:nextMTSequence value uint64
+
+//@ define BALF(F, a, d, m) = ite(has(F, a, d, m), get(F, a, d, m), 0)
+//@ define BAL(a, d, m) = BALF(balances, a, d, m)
+//@ define SUPF(F, d, m) = ite(has(F, d, m), get(F, d, m), 0)
+//@ define SUP(d, m) = SUPF(supplies, d, m)
+// Sum over all holders of the balances of multi-token (d, m): uninterpreted aggregate with the single-key update
+// rule and "a sum of naturals dominates each summand" as axioms (facts about finite sums, not about the code).
+//@ define SUMB(F, d, m) = uf("sumBal", F, d, m)
+//@ axiom sumUpd(F, a, d, m, v)
+//@   ensures SUMB(set(F, a, d, m, v), d, m) == SUMB(F, d, m) - BALF(F, a, d, m) + v
+//@ axiom sumGe(F, a, d, m)
+//@   ensures SUMB(F, d, m) >= BALF(F, a, d, m) && BALF(F, a, d, m) >= 0
+//@ define inv(d, m) = SUMB(balances, d, m) == SUP(d, m)
+
+//@ func Keeper.GetBalance
+//@   property C15
+//@   returns r
+//@   ensures value: r == BAL(addr, denomID, mtID)
+//@ end
+
+//@ func Keeper.GetMTSupply
+//@   property C15
+//@   returns r
+//@   ensures value: r == SUP(denomID, mtID)
+//@ end
+
+//@ func Keeper.AddBalance
+//@   property C15
+//@   returns err
+//@   let b0 = BAL(addr, denomID, mtID)
+//@   modifies balances
+//@   ensures ok:   err == nil ==> b0 + amount <= MAXU64 && balances == set(old(balances), addr, denomID, mtID, b0 + amount)
+//@   ensures fail: err != nil ==> b0 + amount > MAXU64 && balances == old(balances)
+//@ end
+
+// SubBalance has no guard of its own: its callers must have established that the balance covers the amount.
+//@ func Keeper.SubBalance
+//@   property C15
+//@   requires BAL(addr, denomID, mtID) >= amount
+//@   let b0 = BAL(addr, denomID, mtID)
+//@   modifies balances
+//@   ensures sub: balances == set(old(balances), addr, denomID, mtID, b0 - amount)
+//@ end
+
+//@ func Keeper.IncreaseMTSupply
+//@   property C15
+//@   returns err
+//@   let s0 = SUP(denomID, mtID)
+//@   modifies supplies
+//@   ensures ok:   err == nil ==> s0 + amount <= MAXU64 && supplies == set(old(supplies), denomID, mtID, s0 + amount)
+//@   ensures fail: err != nil ==> s0 + amount > MAXU64 && supplies == old(supplies)
+//@ end
+
+//@ func Keeper.decreaseMTSupply
+//@   property C15
+//@   requires SUP(denomID, mtID) >= amount
+//@   let s0 = SUP(denomID, mtID)
+//@   modifies supplies
+//@   ensures sub: supplies == set(old(supplies), denomID, mtID, s0 - amount)
+//@ end
+
+//@ func Keeper.Transfer
+//@   property C15
+//@   returns err
+//@   requires BAL(from, denomID, mtID) >= amount
+//@   requires inv(denomID, mtID) && SUP(denomID, mtID) <= MAXU64
+//@   let F0 = balances
+//@   let F1 = set(balances, from, denomID, mtID, BAL(from, denomID, mtID) - amount)
+//@   modifies balances
+//@   lemma @return sumUpd(F0, from, denomID, mtID, BALF(F0, from, denomID, mtID) - amount)
+//@   lemma @return sumUpd(F1, to, denomID, mtID, BALF(F1, to, denomID, mtID) + amount)
+//@   lemma @return sumGe(F1, to, denomID, mtID)
+//@   ensures moved: err == nil ==> balances == set(F1, to, denomID, mtID, BALF(F1, to, denomID, mtID) + amount)
+//@   ensures sum:   err == nil ==> inv(denomID, mtID)
+//@   ensures never_overflows: err == nil
+//@ end
+
+//@ func Keeper.TransferOwner
+//@   property C15
+//@   returns err
+//@   requires inv(denomID, mtID) && SUP(denomID, mtID) <= MAXU64
+//@   let F0 = balances
+//@   let F1 = set(balances, srcOwner, denomID, mtID, BAL(srcOwner, denomID, mtID) - amount)
+//@   modifies balances
+//@   ensures held:  err == nil ==> BALF(F0, srcOwner, denomID, mtID) >= amount
+//@   ensures moved: err == nil ==> balances == set(F1, dstOwner, denomID, mtID, BALF(F1, dstOwner, denomID, mtID) + amount)
+//@   ensures exact: err == nil && srcOwner != dstOwner ==> BAL(srcOwner, denomID, mtID) == BALF(F0, srcOwner, denomID, mtID) - amount
+//@                                                      && BAL(dstOwner, denomID, mtID) == BALF(F0, dstOwner, denomID, mtID) + amount
+//@   ensures self:  err == nil && srcOwner == dstOwner ==> BAL(srcOwner, denomID, mtID) == BALF(F0, srcOwner, denomID, mtID)
+//@   ensures sum:   err == nil ==> inv(denomID, mtID)
+//@   ensures rejected: BALF(F0, srcOwner, denomID, mtID) < amount ==> err != nil
+//@ end
+
+//@ func Keeper.BurnMT
+//@   property C15
+//@   returns err
+//@   requires inv(denomID, mtID)
+//@   let F0 = balances
+//@   let b0 = BAL(owner, denomID, mtID)
+//@   let s0 = SUP(denomID, mtID)
+//@   modifies balances, supplies
+//@   lemma @entry sumGe(F0, owner, denomID, mtID)
+//@   lemma @return sumUpd(F0, owner, denomID, mtID, b0 - amount)
+//@   ensures held:   err == nil ==> b0 >= amount
+//@   ensures burned: err == nil ==> balances == set(F0, owner, denomID, mtID, b0 - amount) && supplies == set(old(supplies), denomID, mtID, s0 - amount)
+//@   ensures sum:    err == nil ==> inv(denomID, mtID)
+//@   ensures rejected: b0 < amount ==> err != nil && balances == F0 && supplies == old(supplies)
+//@ end
+
+//@ func Keeper.MintMT
+//@   property C15
+//@   returns err
+//@   requires inv(denomID, mtID)
+//@   let F0 = balances
+//@   let b0 = BAL(recipient, denomID, mtID)
+//@   let s0 = SUP(denomID, mtID)
+//@   modifies balances, supplies
+//@   lemma @entry sumGe(F0, recipient, denomID, mtID)
+//@   lemma @return sumUpd(F0, recipient, denomID, mtID, b0 + amount)
+//@   ensures minted: err == nil ==> s0 + amount <= MAXU64 && supplies == set(old(supplies), denomID, mtID, s0 + amount)
+//@                               && balances == set(F0, recipient, denomID, mtID, b0 + amount)
+//@   ensures sum:    err == nil ==> inv(denomID, mtID)
+//@   ensures overflow_rejected: s0 + amount > MAXU64 ==> err != nil
+//@ end
+
+//@ func Keeper.Authorize
+//@   property C15
+//@   returns err
+//@   ensures owner_only: err == nil ==> has(denoms, denomID) && bech(owner) == get(denoms, denomID).Owner
+//@ end
